@@ -19,7 +19,7 @@ import (
 )
 
 var c08Segs = []string{"a", "foo", "%2F", "%20x", "%C3%A9", "a.b", "~x", "-_", "x;y", "%25", "A", "0"}
-var c08Queries = []string{"", "a=b", "a=b&c=%20d", "q=%2F%3F", "x", "a=1&a=2", "e=%C3%A9", "k=v=w"}
+var c08Queries = []string{"", "a=b", "a=b&c=%20d", "q=%2F%3F", "x", "a=1&a=2", "e=%C3%A9", "k=v=w", "filter=%7B%22a%22%3A1%7D&sort=-created&page=2", "redirect=https%3A%2F%2Fexample.com%2Fcb%3Fx%3D1", "a;b=c", "+plus+=+sp+"}
 var c08Bodies = []int{0, 1, 1024, 65536, 1 << 20}
 var c08Statuses = []int{200, 201, 204, 301, 404, 500, 503}
 
